@@ -116,6 +116,26 @@ func writeCase(w *lineWriter, bc *builtCorpus, in []byte) (impl string, r classi
 			slow = true
 		}
 	}
+	// stage-level observations: getMatchedRanges per document (at most 8 documents per case, in key order)
+	mr := bc.c.VerifMatchedRanges(in)
+	var keys []string
+	for k := range mr {
+		keys = append(keys, k)
+	}
+	sort.Strings(keys)
+	if len(keys) > 8 {
+		keys = keys[:8]
+	}
+	for _, k := range keys {
+		var sb strings.Builder
+		for i, x := range mr[k] {
+			if i > 0 {
+				sb.WriteByte(';')
+			}
+			fmt.Fprintf(&sb, "%d,%d,%d,%d,%d", x[0], x[1], x[2], x[3], x[4])
+		}
+		w.printf("G %s %s\n", runesDot(k), sb.String())
+	}
 	w.printf("ENDCASE\n")
 	return impl, r, slow
 }
